@@ -88,7 +88,11 @@ func main() {
 	// go-diameter prints recovered handler panics through the standard logger
 	log.SetOutput(io.Discard)
 	if name == "config-child" {
-		configChild(os.Args[2])
+		klog := ""
+		if len(os.Args) > 3 {
+			klog = os.Args[3]
+		}
+		configChild(os.Args[2], klog)
 		return
 	}
 	if name == "dump-tables" {
